@@ -199,7 +199,7 @@ def r4_keys(ctx: Ctx, ws: FuncInfo) -> None:
             if isinstance(n, ast.Compare) and any(isinstance(o, (ast.In, ast.NotIn)) for o in n.ops) and src(n.comparators[0]) == 'merchants' and 'merchant_id' in src(n.left):
                 handled = True
     if lossy and not handled:
-        ctx.fail('C12.R4', mk, 'key:merchant_id', f'make_merchant_id {lossy} maps distinct merchant names to the same id (e.g. "A B", "A_B", "A\'B") and '
+        ctx.fail('C12.R4', mk, 'key:merchant_id:' + _sig(lossy), f'make_merchant_id {lossy} maps distinct merchant names to the same id (e.g. "A B", "A_B", "A\'B") and '
                                                   f'merchants[merchant_id] = … overwrites: one merchant and all its transactions vanish from the embedded data', rets[0] if rets else None)
     else:
         ctx.ok('C12.R4', mk, 'merchant ids are injective or collisions handled', construct='key:merchant_id')
@@ -211,14 +211,22 @@ def r4_keys(ctx: Ctx, ws: FuncInfo) -> None:
     handled = any(isinstance(n, ast.Compare) and any(isinstance(o, (ast.In, ast.NotIn)) for o in n.ops) and src(n.comparators[0]) == 'sections' and 'section_id' in src(n.left)
                   for n in ast.walk(ws.node))
     if lossy and not handled:
-        ctx.fail('C12.R4', ws, 'key:section_id', f'section_id = {src(sid[0].value)} {lossy}: views "My View" and "my_view" share an id and sections[section_id] = … keeps only the last', sid[0])
+        ctx.fail('C12.R4', ws, 'key:section_id:' + _sig(lossy), f'section_id = {src(sid[0].value)} {lossy}: views "My View" and "my_view" share an id and sections[section_id] = … keeps only the last', sid[0])
     else:
         ctx.ok('C12.R4', ws, 'section ids are injective or collisions handled', construct='key:section_id')
+
+
+def _sig(lossy: List[str]) -> str:
+    """the id-deriving operations themselves are part of the finding's identity: a different (e.g. more aggressive) sanitiser is a different finding"""
+    return '+'.join(sorted(lossy))[:120]
 
 
 def _lossy_ops(e) -> List[str]:
     out = []
     for n in ast.walk(e):
+        if isinstance(n, ast.Call) and call_name(n) in ('sub', 'subn') and len(n.args) >= 2:
+            out.append(f'sub({src(n.args[0])}->{src(n.args[1])})')
+            continue
         if isinstance(n, ast.Call) and isinstance(n.func, ast.Attribute):
             if n.func.attr == 'replace' and len(n.args) == 2 and isinstance(n.args[1], ast.Constant):
                 out.append(f'replace({src(n.args[0])}->{src(n.args[1])})')
@@ -228,8 +236,31 @@ def _lossy_ops(e) -> List[str]:
 
 
 # --------------------------------------------------------------------------- R5
+def _fmt_wrappers(ctx: Ctx) -> None:
+    """Every output shows the figure that was analysed: a local formatting helper (def fmt(amount): return format_currency(amount, …)) hands its
+    argument to format_currency unchanged.  A helper that drops the sign (abs) or rounds leaves it to each call site to put the sign back,
+    and the call sites of one output then disagree with the other outputs."""
+    proj = ctx.proj
+    n = 0
+    for fi in proj.all_funcs():
+        if fi.module.short not in ('analyzer', 'report', 'commands.explain', 'commands.run'):
+            continue
+        body = [s_ for s_ in fi.node.body if not (isinstance(s_, ast.Expr) and isinstance(s_.value, ast.Constant))]
+        if len(body) != 1 or not isinstance(body[0], ast.Return) or not isinstance(body[0].value, ast.Call) or call_name(body[0].value) != 'format_currency':
+            continue
+        n += 1
+        c = body[0].value
+        a0 = c.args[0] if c.args else None
+        ok = isinstance(a0, ast.Name) and a0.id in fi.params
+        ctx.check(ok, 'C12.R5', fi, f'fmt:{fi.short}', f'{fi.short}() formats its argument unchanged',
+                  f'{fi.short}() formats {src(a0) if a0 is not None else None!r} instead of the amount it is given: the sign (or precision) of every figure printed through it depends on each call '
+                  f'site putting it back, and one that does not (e.g. Net Transfers) shows a different figure than the markdown / HTML / JSON outputs', c)
+    ctx.need(n >= 1, 'C12.R5: no currency formatting wrapper found in the output functions')
+
+
 def r5_headline(ctx: Ctx, ws: FuncInfo) -> None:
     proj = ctx.proj
+    _fmt_wrappers(ctx)
     # HTML: spending_data entries
     fl = get_flow(proj, ws)
     sd = [s for s in ast.walk(ws.node) if isinstance(s, ast.Assign) and src(s.targets[0]) == 'spending_data' and isinstance(s.value, ast.Dict)]
@@ -501,19 +532,33 @@ def r9_precedence(ctx: Ctx) -> None:
 
 
 def _chain_order(fnode, collect_nodes=False):
+    """Bucket decision chains: if/elif chains on special tags, or the same chain spelled as consecutive `if …: …; return/continue` statements."""
     out = []
     seen = set()
+    blocks = []
     for n in ast.walk(fnode):
-        if isinstance(n, ast.If) and id(n) not in seen:
+        for fld in ('body', 'orelse', 'finalbody'):
+            b = getattr(n, fld, None)
+            if isinstance(b, list) and b and isinstance(b[0], ast.stmt):
+                blocks.append(b)
+    for blk in blocks:
+        for i, n in enumerate(blk):
+            if not isinstance(n, ast.If) or id(n) in seen:
+                continue
             tags = []
-            cur = n
+            cur, pos, lst = n, i, blk
             while isinstance(cur, ast.If):
-                seen.add(id(cur))
                 t = _tag_of_test(cur.test)
                 if t is None:
                     break
+                seen.add(id(cur))
                 tags.append(t)
-                cur = cur.orelse[0] if len(cur.orelse) == 1 and isinstance(cur.orelse[0], ast.If) else None
+                if len(cur.orelse) == 1 and isinstance(cur.orelse[0], ast.If):
+                    cur, lst, pos = cur.orelse[0], cur.orelse, 0
+                elif not cur.orelse and cur.body and isinstance(cur.body[-1], (ast.Return, ast.Continue, ast.Break, ast.Raise)) and pos + 1 < len(lst):
+                    cur, pos = lst[pos + 1], pos + 1
+                else:
+                    cur = None
             if tags:
                 out.append((tags, n) if collect_nodes else tags)
     return out
